@@ -19,11 +19,17 @@
       C17 invariant);  C19_deepcopy_identity_iff: for deepcopy the hypothesis is also necessary;
     * C19_construct_consistent: every tree produced by the loader, over the FULL tag vocabulary of
       `Raw` (merge-control tags, metadata, every node kind), is `FlagsConsistent`;
-    * C19_merge_inconsistent_counterexample: merging does NOT preserve `FlagsConsistent` — the
-      copy of a merged tree can differ from the merged tree (a finding, replayed on the code).
-  Only property theorems live here; lemmas are in AY.Lemmas.C19Lemmas.
+    * C19_merge_consistent (with C19_leafRule_consistent, C19_finishMerge_consistent,
+      C19_compMerge_consistent, C19_merge_root_consistent, C19_merged_copy_identity): merging
+      preserves `FlagsConsistent`, for all trees, and so does `Builder.flatten` with all pre-merge
+      operators (C19_flatten_consistent, C19_built_copy_identity) — since the repair of `_replace_other`; before it
+      this was false (former `C19_merge_inconsistent_counterexample`, findings D27 / D27b).
+  Only property theorems live here; lemmas are in AY.Lemmas.C19Lemmas,
+  AY.Lemmas.C19Merge and AY.Lemmas.C19Flatten.
 -/
 import AY.Lemmas.C19Lemmas
+import AY.Lemmas.C19Merge
+import AY.Lemmas.C19Flatten
 import AY.Model.Build
 namespace AY
 
@@ -122,35 +128,167 @@ theorem C19_construct_consistent (env : Env) (r : Raw) (n : Node) (h : construct
 example : construct {} c19ExRaw = .ok c19ExTree := rfl
 example : FlagsConsistent c19ExTree = true := C19_construct_consistent {} c19ExRaw _ rfl
 
-/-! ### merging does not (finding) -/
+/-! ### merging preserves the hypothesis -/
 
-/- `C19_merge_consistent` ("the merge of consistent trees is consistent") is FALSE of the faithful
-   model and of the code: when the older node outranks the newer one, `_replace_other` copies the
+/- History: `C19_merge_consistent` used to be FALSE of the faithful model and of the code (former
+   theorem `C19_merge_inconsistent_counterexample`, findings D27 / D27b): `_replace_other` copied the
    newer node's `safe=False` into the surviving node WITHOUT re-propagating it to the children
-   (`_replace_self` does propagate). Witness: `a: !force {x: 1}` ← `a: !unsafe {}` — in the merged
-   tree `a` is unsafe while `a.x` still counts as safe; in a deep copy (what `Config` evaluates)
-   `a.x` is unsafe. Both inputs are consistent, the output is not, and copy ≠ original. -/
-theorem C19_merge_inconsistent_counterexample :
-    ∃ a b m, FlagsConsistent a = true ∧ FlagsConsistent b = true ∧ WellKeyed m = true ∧
-      merge a b = .ok m ∧ FlagsConsistent m = false ∧ reconstructCopy (reduceNode m) ≠ m := by
-  refine ⟨(match construct {} c19ExOlder with | .ok a => a | .error _ => .leaf {} .required),
-          (match construct {} c19ExNewer with | .ok b => b | .error _ => .leaf {} .required),
-          c19ExMerged, by decide, by decide, by decide, rfl, by decide, fun h => ?_⟩
-  have hc := C19_deepcopy_consistent c19ExMerged
-  rw [h] at hc
-  exact absurd hc (by decide)
-
-/- what differs: the effective safety of `a.x` (true in the merged original, false in its copy) -/
-example : (getNode c19ExMerged [.str "a", .str "x"]).map (fun n => eSafe n.flags) = some true := by decide
+   (`_replace_self` did propagate), so for `a: !force {x: 1}` ← `a: !unsafe {}` the merged `a` was
+   unsafe while `a.x` still counted as safe, and a deep copy (what `Config` evaluates) differed from
+   the merged tree. The library was repaired ("flags merged into the surviving node were not handed
+   down to its children": `_replace_other` ends with `_propagate_implicit_values` like
+   `_replace_self`), the model follows, and the positive statement is proved below at full strength:
+   every node shape and kind, every tag, promotions, the pruning pre-filter, list deletion with
+   re-adoption, function-node merges, any depth. The old witness is now consistent: -/
+example : FlagsConsistent c19ExMerged = true ∧ WellKeyed c19ExMerged = true := by decide
+example : reconstructCopy (reduceNode c19ExMerged) = c19ExMerged := rfl
+example : (getNode c19ExMerged [.str "a", .str "x"]).map (fun n => eSafe n.flags) = some false := by decide
 example : (getNode (reconstructCopy (reduceNode c19ExMerged)) [.str "a", .str "x"]).map (fun n => eSafe n.flags)
     = some false := by decide
 
+/-- the witness of the former finding D27b: `_u: !call:rec.f{{'delete': False}} {}` ← `_u: ["hello world"]`
+    (the function node is promoted over the list) -/
+def c19ExPromoted : Node :=
+  match merge
+      (.comp {} .dict [(.str "_u", .comp { del := some false, iSafe := none } (.call "rec.f") [])])
+      (.comp {} .dict [(.str "_u", .comp {} .list [(.int 0, .leaf {} (.scalar (.str "hello world")))])]) with
+  | .ok m => m
+  | .error _ => .leaf {} .required
+
+/- `ConfigNode.on_merge_impl` (`leafRule`, the rule for a scalar on either side): the winner takes
+   over the loser's safety marks and re-propagates; consistent inputs give a consistent result. The
+   inputs need only be consistent BELOW their roots — the propagation repairs the first level. -/
+theorem C19_leafRule_consistent (s o : Node) (hs : ConsistentBelow s = true) (ho : ConsistentBelow o = true) :
+    FlagsConsistent (leafRule s o).1 = true :=
+  leafRule_cons hs ho
+
+example : ConsistentBelow (.comp { prio := some 1 } .dict [(.str "x", .leaf {} (.scalar (.int 1)))]) = true ∧
+    (leafRule (.comp { prio := some 1 } .dict [(.str "x", .leaf {} (.scalar (.int 1)))])
+        (.leaf { safe := some false } (.scalar (.int 2)))).1
+      = .comp { prio := some 1, safe := some false } .dict [(.str "x", .leaf { iSafe := some false } (.scalar (.int 1)))] :=
+  ⟨rfl, rfl⟩
+
+/- the tail of `ComposedNode.on_merge_impl` (`finishMerge`: `_replace_self` / `_replace_other` with
+   promotions): whatever the loop left in the child map, if every child is a consistent tree the
+   returned container is consistent — the root's flags change here and the final
+   `_propagate_implicit_values` re-establishes the first level and recurses where something changed;
+   a promoted node re-adopts the children first. -/
+theorem C19_finishMerge_consistent {sf : Flags} {sk : CompKind} {scs : List (Key × Node)} {o r : Node} {b : Bool}
+    (hscs : allConsistent scs = true) (h : finishMerge sf sk scs o = .ok (r, b)) : FlagsConsistent r = true :=
+  finishMerge_cons hscs h
+
+example : ∃ r b, finishMerge { prio := some 1 } .dict [(.str "x", .leaf {} (.scalar (.int 1)))]
+      (.comp { safe := some false } .dict []) = .ok (r, b) ∧
+    r = .comp { prio := some 1, safe := some false } .dict [(.str "x", .leaf { iSafe := some false } (.scalar (.int 1)))] :=
+  ⟨_, _, rfl, rfl⟩
+
+/- `ComposedNode.on_merge_impl` as a whole, for ANY recursive merge that keeps trees consistent:
+   the leaf rule, the pruning (`filter_nodes`, list elements are re-adopted when they move down),
+   the early exit, the key loop (`set_child` adopts, `remove_child`, in-place replacement) and the tail. -/
+theorem C19_compMerge_consistent {rec : Node → Node → Except Err (Node × Bool)}
+    (hrec : ∀ a b r s, FlagsConsistent a = true → FlagsConsistent b = true → rec a b = .ok (r, s) →
+      FlagsConsistent r = true)
+    {sf : Flags} {sk : CompKind} {scs : List (Key × Node)} {o r : Node} {b : Bool}
+    (hscs : allConsistent scs = true) (ho : FlagsConsistent o = true)
+    (h : compMerge rec sf sk scs o = .ok (r, b)) : FlagsConsistent r = true :=
+  compMerge_cons hrec hscs ho h
+
+example : ∃ r b, compMerge (mergeF 1) {} .dict [(.str "a", .leaf { prio := some 1 } (.scalar (.int 1)))]
+    (.comp {} .dict [(.str "a", .leaf { safe := some false } (.scalar (.int 2)))]) = .ok (r, b) :=
+  ⟨_, _, rfl⟩
+
+/- "… merges … exactly like the original": `on_merge` (`mergeF`, every dispatch: scalars, mappings,
+   lists and their subclasses, function nodes, streams) maps consistent trees to consistent trees,
+   at every depth. No hypothesis on the keys is needed. -/
+theorem C19_merge_consistent (fuel : Nat) (a b r : Node) (same : Bool)
+    (ha : FlagsConsistent a = true) (hb : FlagsConsistent b = true)
+    (h : mergeF fuel a b = .ok (r, same)) : FlagsConsistent r = true :=
+  mergeF_cons fuel a b r same ha hb h
+
+theorem C19_merge_root_consistent (a b m : Node) (ha : FlagsConsistent a = true) (hb : FlagsConsistent b = true)
+    (h : merge a b = .ok m) : FlagsConsistent m = true :=
+  merge_cons ha hb h
+
+example : ∃ a b, construct {} c19ExOlder = .ok a ∧ construct {} c19ExNewer = .ok b ∧
+    FlagsConsistent a = true ∧ FlagsConsistent b = true ∧ merge a b = .ok c19ExMerged :=
+  ⟨_, _, rfl, rfl, by decide, by decide, rfl⟩
+example : FlagsConsistent c19ExPromoted = true ∧ WellKeyed c19ExPromoted = true := by decide
+/- the newer list wins, the function node is promoted and re-adopts the element; the final propagation
+   gives `_u[0]` the inherited delete flag of the node it now lives in (it kept `False` before the repair) -/
+example : c19ExPromoted = .comp {} .dict [(.str "_u", .comp {} (.call "rec.f")
+    [(.int 0, .leaf { iDel := some true } (.scalar (.str "hello world")))])] := rfl
+
+/- hence a deep copy / pickle round trip of a merged tree is the merged tree, whenever the inputs
+   were consistent (every loader-built tree is: `C19_construct_consistent`) and the child maps of the
+   result are well-keyed (the C17 invariant of `_children`) -/
+theorem C19_merged_copy_identity (a b m : Node) (ha : FlagsConsistent a = true) (hb : FlagsConsistent b = true)
+    (h : merge a b = .ok m) (hw : WellKeyed m = true) :
+    reconstructCopy (reduceNode m) = m ∧ reconstructPickle (reduceNode m) = m :=
+  have hc := merge_cons ha hb h
+  ⟨copy_id m hc hw, pickle_id m (consistentBelow_of_consistent hc) hw⟩
+
+example : reconstructPickle (reduceNode c19ExMerged) = c19ExMerged := rfl
+
+/-! ### … and so does the whole of `Builder.flatten` -/
+
+/-- `{a: [1], b: !unsafe {x: 2}}` and `{a: !append [3], c: !prev b}` -/
+def c19ExDoc1 : Raw :=
+  .map .none {} [(.str "a", .seq .none {} [.scalar .none {} (.lit (.int 1))]),
+    (.str "b", .map .plain { safe := some false } [(.str "x", .scalar .none {} (.lit (.int 2)))])]
+def c19ExDoc2 : Raw :=
+  .map .none {} [(.str "a", .seq .append {} [.scalar .none {} (.lit (.int 3))]),
+    (.str "c", .scalar .prev {} (.text "b"))]
+def c19ExStage1 : Node := match construct {} c19ExDoc1 with | .ok n => n | .error _ => .leaf {} .required
+def c19ExStage2 : Node := match construct {} c19ExDoc2 with | .ok n => n | .error _ => .leaf {} .required
+def c19ExStages : List Node := [c19ExStage1, c19ExStage2]
+/-- `a: [1, 3]`, `c: !unsafe {x: 2}` (moved by `!prev`) -/
+def c19ExBuilt : Node :=
+  .comp {} .dict [
+    (.str "a", .comp {} .list [(.int 0, .leaf { iDel := some true } (.scalar (.int 1))),
+      (.int 1, .leaf { iDel := some true } (.scalar (.int 3)))]),
+    (.str "c", .comp { safe := some false } .dict [(.str "x", .leaf { iSafe := some false } (.scalar (.int 2)))])]
+
+/- The tree a `Builder` hands to `Config` — `Builder.flatten`: the pre-merge pass over every stage
+   (`!prev` detaches a node of the accumulated tree, `!clear` empties one, `!append` / `!extend`
+   extend one or become plain lists, nested streams are flattened recursively, replaced children
+   are re-set through `set_child`) followed by the merge into the accumulated tree — is consistent
+   whenever the stages are. Any number of stages, any shapes and tags. -/
+theorem C19_flatten_consistent (stages : List Node) (r : Node)
+    (hs : ∀ s, s ∈ stages → FlagsConsistent s = true) (h : flatten stages = .ok r) :
+    FlagsConsistent r = true :=
+  flatten_cons stages r hs h
+
+example : construct {} c19ExDoc1 = .ok c19ExStage1 ∧ construct {} c19ExDoc2 = .ok c19ExStage2 ∧
+    flatten c19ExStages = .ok c19ExBuilt := ⟨rfl, rfl, rfl⟩
+example : FlagsConsistent c19ExBuilt = true := C19_flatten_consistent c19ExStages _ (by decide) rfl
+
+/- "a deep copy or pickle round-trip of any node tree is … equal …": for every tree a Builder can
+   produce from parsed documents — the stages come from the loader (`C19_construct_consistent`), the
+   result from `flatten` — copy and pickle are the identity, given that the child maps of the result
+   are well-keyed (the C17 invariant of `_children`, not re-proved for merge results here). -/
+theorem C19_built_copy_identity (stages : List Node) (r : Node)
+    (hs : ∀ s, s ∈ stages → ∃ env raw, construct env raw = .ok s) (h : flatten stages = .ok r)
+    (hw : WellKeyed r = true) :
+    FlagsConsistent r = true ∧ reconstructCopy (reduceNode r) = r ∧ reconstructPickle (reduceNode r) = r :=
+  have hc := flatten_cons stages r
+    (fun s hm => by obtain ⟨env, raw, e⟩ := hs s hm; exact C19_construct_consistent env raw s e) h
+  ⟨hc, copy_id r hc hw, pickle_id r (consistentBelow_of_consistent hc) hw⟩
+
+example : (∀ s, s ∈ c19ExStages → ∃ env raw, construct env raw = .ok s) ∧ WellKeyed c19ExBuilt = true := by
+  refine ⟨fun s hm => ?_, by decide⟩
+  rcases List.mem_cons.1 hm with e | hm
+  · exact ⟨{}, c19ExDoc1, e ▸ rfl⟩
+  · rcases List.mem_cons.1 hm with e | hm
+    · exact ⟨{}, c19ExDoc2, e ▸ rfl⟩
+    · cases hm
+example : reconstructCopy (reduceNode c19ExBuilt) = c19ExBuilt ∧
+    reconstructPickle (reduceNode c19ExBuilt) = c19ExBuilt := ⟨rfl, rfl⟩
+
 /-
-  Not proved (PARTIAL): `C19_merge_consistent` for the sub-domain without safety marks (no `!unsafe`,
-  all sources safe) — on 30 000 generated merge sequences the implementation's merged trees are
-  copy-invariant whenever the mechanism above is absent, but the invariant proof through `mergeF`
-  (pre-filter, pruning, promotion, re-adoption on list deletion) is not done.  Object identity
-  ("shares no node") is outside the value model and is checked on the implementation only.
+  Not proved (PARTIAL): that merging / flattening also preserves `WellKeyed` (a hypothesis on the
+  result in `C19_merged_copy_identity` and `C19_built_copy_identity`; it is the C17 invariant of
+  `_children`).  Object identity ("shares no node") is outside the value model and is checked on the
+  implementation only.
 -/
 
 end AY
